@@ -84,7 +84,7 @@ class StepBudget(KeyboardInterrupt):
     pass
 
 
-WATCHDOG = int(os.environ.get('VERIF_WATCHDOG', '150'))
+WATCHDOG = int(os.environ.get('VERIF_WATCHDOG', '300'))
 STEP_BUDGET = int(os.environ.get('VERIF_STEP_BUDGET', str(2 * 10**9)))
 MEASURE_STEPS = os.environ.get('VERIF_MEASURE_STEPS') == '1'
 max_steps_seen = [0]
@@ -131,7 +131,7 @@ def count_library_steps(fn, case, budget):
     return res, count[0]
 
 
-def exceeds_budget_in_child(fn, case, budget, want_result=True):
+def exceeds_budget_in_child(fn, case, budget, want_result=True, traced=True, wall=None):
     """Evaluate fn(case) in a forked child under the line counter.  Returns (exceeded, result):
     exceeded is True when the child executed more than `budget` lines inside the library
     (it exits on the spot: nothing can swallow that); result is fn(case) as computed by the
@@ -165,11 +165,15 @@ def exceeds_budget_in_child(fn, case, budget, want_result=True):
                 if hit is None:
                     hit = inlib[code_] = code_.co_filename.startswith(libdir)
                 return local if hit else None
-            sys.settrace(tracer)
+            if traced:
+                sys.settrace(tracer)
+            elif wall:
+                signal.alarm(wall)      # default action: the child dies, the parent sees it
             try:
                 res = fn(case)
             finally:
                 sys.settrace(None)
+                signal.alarm(0)
             try:
                 data = pickle.dumps((res, count[0])) if want_result else \
                     pickle.dumps((None, count[0]))
@@ -192,6 +196,8 @@ def exceeds_budget_in_child(fn, case, budget, want_result=True):
     code = os.waitstatus_to_exitcode(status)
     if code == 3:
         return True, None, None
+    if code == -14 and not traced:      # SIGALRM: the untraced child was too slow
+        return None, None, None
     if code != 0 or not data:
         raise RuntimeError("evaluation in a child process failed (exit %s)" % code)
     res, steps = pickle.loads(data)
@@ -235,6 +241,13 @@ def guarded(prop_id, fn, case, budget=None):
             signal.alarm(0)
             signal.signal(signal.SIGALRM, old)
         _tainted.append(True)
+    else:
+        # at full speed in a disposable child, with the same wall-clock trigger
+        exceeded, res, steps = exceeds_budget_in_child(fn, case, budget, traced=False,
+                                                       wall=WATCHDOG)
+        if exceeded is False and res is not None:
+            return res
+        fired.append(True)
     exceeded, res, steps = exceeds_budget_in_child(fn, case, budget)
     if exceeded:
         _confirmed_hang.append(True)
